@@ -92,4 +92,11 @@ def lib():
     ns.scat = scat
     ns.orig_resource_stream = coeffs.__dict__.get("resource_stream")
     _lib = ns
+    # every run starts with a full gc.collect(); with torch/numpy imported that
+    # walks ~10^6 long-lived objects (0.3 s).  Freeze what exists now.
+    import gc
+    import pywt  # noqa
+    import pickle, copy, zipfile  # noqa
+    gc.collect()
+    gc.freeze()
     return ns
